@@ -90,6 +90,39 @@ Qed.
 Theorem unsigned_when_no_method k b kt : make_message k b "" kt = Ok false.
 Proof. reflexivity. Qed.
 
+(* ================= published metadata (C13) ================= *)
+(* with a method configured the metadata carries a signing descriptor whose
+   first certificate is the SP's own, followed by the intermediates; without a
+   method there is no signing descriptor; AuthnRequestsSigned iff a method is set *)
+Theorem metadata_advertises c inters rsa m :
+  (nonempty m = true ->
+     kd_certs_of "signing" (sp_key_descriptors (Some c) inters rsa m) = Some (c :: inters)
+     /\ sp_authn_requests_signed m = true) /\
+  (nonempty m = false ->
+     kd_certs_of "signing" (sp_key_descriptors (Some c) inters rsa m) = None
+     /\ sp_authn_requests_signed m = false) /\
+  (forall cs, kd_certs_of "encryption" (sp_key_descriptors (Some c) inters rsa m) = Some cs ->
+     rsa = true /\ cs = c :: inters).
+Proof.
+  unfold sp_key_descriptors, sp_authn_requests_signed.
+  destruct rsa, (nonempty m); vm_compute; repeat split; intros; congruence.
+Qed.
+
+Theorem metadata_no_cert inters rsa m : sp_key_descriptors None inters rsa m = [].
+Proof. reflexivity. Qed.
+
+(* the model's descriptors always satisfy the monitor *)
+Theorem metadata_meets_spec c inters rsa m :
+  mdcase_spec {| md_cert := Some c; md_inters := inters; md_rsa := rsa; md_method := m;
+                 md_kds := sp_key_descriptors (Some c) inters rsa m;
+                 md_authn_signed := sp_authn_requests_signed m; md_first_is_sp_cert := true |} = true.
+Proof.
+  unfold mdcase_spec. cbn [md_cert md_method md_kds md_authn_signed md_first_is_sp_cert].
+  destruct (nonempty m) eqn:N; [|reflexivity].
+  destruct (metadata_advertises c inters rsa m) as [A _]. destruct (A N) as [-> ->].
+  cbn. apply seqb_refl.
+Qed.
+
 (* ================= the hand-assembled AuthnRequest query ================= *)
 Section AuthnQuery.
   Variable sign : string -> string.
